@@ -15,6 +15,12 @@ and both are run through one functional {rootfinder, equilibrium, minimize, solv
 (deterministic samplers), jac, hess}.  Values, first-order leaf gradients of a random contraction and second-order
 leaf gradients (gradient of a random contraction of the first-order gradients) must agree.
 
+Task "rounds": two uses of the functional on ONE object.  Between them the owner of the object does what owners do: an
+optimiser step on the leaves (in place), derived tensors computed again and stored again, list / dict / sub-module
+attributes bound to NEW containers, entries replaced inside the existing containers, a dict rebuilt in another key order,
+Parameters registered again in another order.  Each round is compared with a fresh pure-function anchor for the values
+the object holds in THAT round.
+
 Tolerance (derived, see ASSUMPTIONS): both sides execute the same algorithm on bitwise the same function values; only
 the order in which gradient contributions are accumulated differs.  Every generated problem is a contraction
 (Lipschitz constant <= 0.4, Jacobians with singular values in [0.6, 1.4]) of dimension <= 9, so the amplification of a
@@ -32,6 +38,8 @@ differentiated through twice) sat in the *anchor* and in the EditableModule kind
 that supply leaves (nn.Module, pure_inner); a closed form decided (regress/C09/ivp_*.json, mcquad_*.json).
 """
 from __future__ import annotations
+
+import os
 
 import torch
 from hypothesis import strategies as st
@@ -52,7 +60,9 @@ RULE = ("case = functional in {rootfinder, equilibrium, minimize, solve_ivp rk4/
         "leaves (id, square, product, affine, alias) x which effective tensors are passed explicitly x unused tensor (explicit / "
         "object-held) x non-tensor parameter x which leaves require grad x order 1/2 x n in 1..4 (optimisers also 6..7, thorough 9: "
         "Krylov backward) x backward-solver options x tensor/tuple outputs and states.  Each case runs the anchor (kind pure) and the "
-        "object kind on the same numbers.  Non-trivial = object kind != pure and at least one reference leaf gradient is non-zero; "
+        "object kind on the same numbers.  rounds: the same on one object twice, with between the rounds {leaves updated in place or not} x "
+        "{object-held tensors derived again (new objects) or kept} x {containers / sub-modules re-bound to new ones, entries replaced in place, dict "
+        "order reversed / Parameters re-registered in reverse}; both rounds non-trivial.  Non-trivial = object kind != pure and at least one reference leaf gradient is non-zero; "
         "distinct by canonical case.")
 ASSUMPTIONS = [
     "float64 only; the anchor (pure function, explicit tensors) is validated against external references by C04/C08/C13/C16/C17",
@@ -67,6 +77,9 @@ ASSUMPTIONS = [
     "parameters supplying exactly the tensors the object kind supplies) and the canonical anchor is compared within the truncation "
     "bound 0.2*h^4 (Euler: 1.0*h); first order and values are layout-independent and compared at TAU with the canonical anchor",
     "forward solves are run to f_tol=1e-11 (contraction => error < 2e-11), so a differing stopping decision could not exceed TAU",
+    "rounds: names and the aliasing pattern of the object never change; graphs of tensors derived outside the function are retained by the "
+    "caller in round 1 when they are used again; siblings kept by the caller keep their tensor objects between the rounds while "
+    "AVOID_SIBLING_SNAPSHOT is set (defect D55, repaired: the flag is off; regress/C09/sibling_snapshot_after_reassignment.json)",
     "mcquad: no unused tensors and a differentiable log-p tensor at second order while AVOID_D11 is set (defect D11, owned by C16); "
     "nsamples == nburnout for mhcustom (insensitive to defect D10); time points never require grad (defect D14)",
 ]
@@ -481,9 +494,11 @@ def call_functional(case, fcn, params, consts, y_in, pfcn=None, pparams=None):
     raise ValueError(func)
 
 
-def evaluate(case, spec, pspec, consts):
-    """run one representation; returns detached values, first- and second-order gradients"""
-    torch.manual_seed(case["seed"] & 0x7FFFFFFF)       # xitorch consumes the global RNG (Krylov set-up probe)
+class Built:
+    """one representation of the function(s) of a case: leaves, callable(s), explicit parameters, the objects behind them"""
+
+
+def build_all(case, spec, pspec, consts):
     func = case["func"]
     form = case["form"]
     opt = case["opt"]
@@ -492,27 +507,39 @@ def evaluate(case, spec, pspec, consts):
     if opt.get("tup"):
         tup = "state" if func == "ivp" else "out"
     kinds = [spec["kind"]] + ([pspec["kind"]] if pspec is not None else [])
-    leaves = make_leaves(consts["vals"], case["req"], kinds)
-    pfcn = pparams = None
-    pleaves = []
+    b = Built()
+    b.spec, b.pspec = spec, pspec
+    b.leaves = make_leaves(consts["vals"], case["req"], kinds)
+    b.pfcn = b.pparams = b.pinfo = None
+    b.pleaves = []
+    b.pl = None
     if func == "mcquad":
         if case["pshare"]:
-            pl = [leaves[0]]
+            b.pl = [b.leaves[0]]
         else:
-            pl = make_leaves(consts["pvals"], [case["preq"]], kinds)
-            pleaves = pl
+            b.pl = make_leaves(consts["pvals"], [case["preq"]], kinds)
+            b.pleaves = b.pl
     if func == "mcquad" and spec["kind"] == "em_two":
-        (fcn, params, info), (pfcn, pparams, pinfo) = build_em_two(make_core(fam, form, tup), leaves, spec,
-                                                                   make_core(fam_logp, form, None), pl, pspec)
+        (b.fcn, b.params, b.info), (b.pfcn, b.pparams, b.pinfo) = build_em_two(make_core(fam, form, tup), b.leaves, spec,
+                                                                              make_core(fam_logp, form, None), b.pl, pspec)
     else:
-        fcn, params, info = build(make_core(fam, form, tup), fam, form, leaves, spec)
+        b.fcn, b.params, b.info = build(make_core(fam, form, tup), fam, form, b.leaves, spec)
         if func == "mcquad":
-            pfcn, pparams, pinfo = build(make_core(fam_logp, form, None), fam_logp, form, pl, pspec)
+            b.pfcn, b.pparams, b.pinfo = build(make_core(fam_logp, form, None), fam_logp, form, b.pl, pspec)
+    return b
+
+
+def run_round(case, b, consts, retain=False):
+    """run the functional on the representation `b` as it is now; returns detached values, first- and second-order gradients.
+    retain: keep the graphs of the tensors derived outside the function alive (they are used again in a later round)"""
+    torch.manual_seed(case["seed"] & 0x7FFFFFFF)       # xitorch consumes the global RNG (Krylov set-up probe)
+    func = case["func"]
+    info, pinfo, leaves, pleaves = b.info, b.pinfo, b.leaves, b.pleaves
     extra = [info["unused"]] if info["unused"] is not None else []
     if func == "mcquad" and pinfo["unused"] is not None:
         extra.append(pinfo["unused"])
     y_in = consts["y"].clone().requires_grad_(bool(case["yreq"]))
-    outs = call_functional(case, fcn, params, consts, y_in, pfcn, pparams)
+    outs = call_functional(case, b.fcn, b.params, consts, y_in, b.pfcn, b.pparams)
 
     g = gen.seeded(case["seed"] + 17)
     W = [gen.randn(g, tuple(o.shape)) for o in outs]
@@ -525,16 +552,23 @@ def evaluate(case, spec, pspec, consts):
     if not wrt or not loss.requires_grad:
         return res
     second = case["order"] == 2
-    g1 = xt_call(torch.autograd.grad, loss, wrt, create_graph=second, allow_unused=True, _where="backward")
+    g1 = xt_call(torch.autograd.grad, loss, wrt, create_graph=second, retain_graph=True if (second or retain) else None, allow_unused=True,
+                 _where="backward")
     res["g1"] = [torch.zeros_like(x) if gk is None else gk.detach() for gk, x in zip(g1[:len(diff)], diff)]
     res["unused"] = [None if gk is None else gk.detach() for gk in g1[len(diff):]]
     if second and diff:
         C = [gen.randn(g, tuple(x.shape)) for x in diff]
         terms = [(c * gk).sum() for c, gk in zip(C, g1[:len(diff)]) if gk is not None and gk.requires_grad]
         if terms:
-            g2 = xt_call(torch.autograd.grad, sum(terms), diff, allow_unused=True, _where="backward2")
+            g2 = xt_call(torch.autograd.grad, sum(terms), diff, retain_graph=True if retain else None, allow_unused=True, _where="backward2")
             res["g2"] = [torch.zeros_like(x) if gk is None else gk.detach() for gk, x in zip(g2, diff)]
     return res
+
+
+def evaluate(case, spec, pspec, consts):
+    """build one representation and run it once"""
+    torch.manual_seed(case["seed"] & 0x7FFFFFFF)
+    return run_round(case, build_all(case, spec, pspec, consts), consts)
 
 
 def tolerances(case):
@@ -581,11 +615,9 @@ def _cmp(name, got, ref, tau, labels, what):
     return None
 
 
-def run_case(case):
-    torch.manual_seed(case["seed"] & 0x7FFFFFFF)
-    spec = case["spec"]
-    pspec = case.get("pspec")
-    func, opt, n = case["func"], case["opt"], case["n"]
+def make_consts(case, rnd=0):
+    """numbers of the case; rnd > 0: the leaf values after the owner's update between two rounds (same y, u, v)"""
+    n = case["n"]
     g = gen.seeded(case["seed"])
     nleaves = len(case["req"])
     consts = {
@@ -594,8 +626,19 @@ def run_case(case):
         "y": torch.rand((n,), generator=g, dtype=DT) - 0.5,
         "v": gen.randn(g, (n,)), "u": gen.randn(g, (n,)),
     }
-    if func in OPTIMISERS and opt["y0"] == "zero":
+    if case["func"] in OPTIMISERS and case["opt"]["y0"] == "zero":
         consts["y"] = torch.zeros((n,), dtype=DT)
+    if rnd:
+        g2 = gen.seeded(case["seed"] + 7919 * rnd)
+        consts["vals"] = [torch.rand((n,), generator=g2, dtype=DT) * 2 - 1 for _ in range(nleaves)]
+        consts["pvals"] = [torch.rand((n,), generator=g2, dtype=DT) * 2 - 1]
+    return consts
+
+
+def case_labels(case):
+    spec = case["spec"]
+    pspec = case.get("pspec")
+    func, opt, n = case["func"], case["opt"], case["n"]
     recs = [r[0] for r in spec["derive"]]
     labels = ["func=" + func + (":" + str(opt["method"]) if "method" in opt else ""), "kind=" + spec["kind"], "order=%d" % case["order"],
               "n=%s" % ("6+" if n > 5 else "1-4"), "unused=%s" % spec.get("unused"), "nontensor=%s" % bool(spec.get("nontensor")),
@@ -609,47 +652,233 @@ def run_case(case):
         labels.append("tuple=%s" % func)
     if func == "mcquad":
         labels += ["pkind=" + pspec["kind"], "pshare=%s" % bool(case["pshare"])]
+    return labels
 
-    ref = evaluate(case, pure_spec(spec), pure_spec(pspec) if pspec else None, consts)
-    got = evaluate(case, spec, pspec, consts)
+
+def judge(case, got, ref, consts, labels, pre=""):
+    """(violation or None, the reference has a non-zero leaf gradient); `pre` prefixes the violation kinds"""
+    spec = case["spec"]
+    func, opt = case["func"], case["opt"]
     tv, t1, t2 = tolerances(case)
-
     if len(got["vals"]) != len(ref["vals"]):
-        return violation("values_count", "%d outputs vs %d for the anchor" % (len(got["vals"]), len(ref["vals"])), labels)
-    bad = _cmp("values:" + func, got["vals"], ref["vals"], tv, labels, "output")
+        return violation(pre + "values_count", "%d outputs vs %d for the anchor" % (len(got["vals"]), len(ref["vals"])), labels), False
+    bad = _cmp(pre + "values:" + func, got["vals"], ref["vals"], tv, labels, "output")
     if bad:
-        return bad
+        return bad, False
     if got["graph"] != ref["graph"]:
-        return violation("graph", "output requires_grad=%s, anchor %s" % (got["graph"], ref["graph"]), labels)
+        return violation(pre + "graph", "output requires_grad=%s, anchor %s" % (got["graph"], ref["graph"]), labels), False
     for u in (got["unused"] or []):
         if u is not None and float(u.abs().max()) != 0.0:
-            return violation("unused_grad", "a tensor that does not enter the function received the gradient %s" % u.tolist(), labels)
+            return violation(pre + "unused_grad", "a tensor that does not enter the function received the gradient %s" % u.tolist(), labels), False
     if (got["g1"] is None) != (ref["g1"] is None) or (got["g1"] is not None and len(got["g1"]) != len(ref["g1"])):
-        return violation("grad1_missing", "first-order gradients present=%s, anchor %s" % (got["g1"] is not None, ref["g1"] is not None), labels)
+        return violation(pre + "grad1_missing", "first-order gradients present=%s, anchor %s" % (got["g1"] is not None, ref["g1"] is not None), labels), False
     nonzero = False
     if ref["g1"] is not None:
-        bad = _cmp("grad1:" + func, got["g1"], ref["g1"], t1, labels, "first-order gradient w.r.t. leaf")
+        bad = _cmp(pre + "grad1:" + func, got["g1"], ref["g1"], t1, labels, "first-order gradient w.r.t. leaf")
         if bad:
-            return bad
+            return bad, False
         nonzero = any(float(b.abs().max()) > 0 for b in ref["g1"][:ref["nleaf"]] if b.numel())
     if case["order"] == 2:
         if t2 > TAU and func == "ivp" and opt["method"] not in ("rk45", "rk23"):
-            labels.append("anchor2=matched")
+            if "anchor2=matched" not in labels:
+                labels.append("anchor2=matched")
             refm = evaluate(case, {"kind": "matched", "of": spec, "derive": spec["derive"]}, None, consts)
             for name, a, b in (("values", got["vals"], refm["vals"]), ("grad1", got["g1"] or [], refm["g1"] or []),
                                ("grad2", got["g2"] or [], refm["g2"] or [])):
                 if len(a) != len(b):
-                    return violation("%s_missing:%s" % (name, func), "%d vs %d tensors for the matched anchor" % (len(a), len(b)), labels)
-                bad = _cmp("%s:%s" % (name, func), a, b, TAU, labels, name + " (matched pure-function anchor)")
+                    return violation(pre + "%s_missing:%s" % (name, func), "%d vs %d tensors for the matched anchor" % (len(a), len(b)), labels), False
+                bad = _cmp(pre + "%s:%s" % (name, func), a, b, TAU, labels, name + " (matched pure-function anchor)")
                 if bad:
-                    return bad
+                    return bad, False
         if (got["g2"] is None) != (ref["g2"] is None):
-            return violation("grad2_missing", "second-order gradients present=%s, anchor %s" % (got["g2"] is not None, ref["g2"] is not None), labels)
+            return violation(pre + "grad2_missing", "second-order gradients present=%s, anchor %s" % (got["g2"] is not None, ref["g2"] is not None), labels), False
         if ref["g2"] is not None:
-            bad = _cmp("grad2:" + func, got["g2"], ref["g2"], t2, labels, "second-order gradient w.r.t. leaf")
+            bad = _cmp(pre + "grad2:" + func, got["g2"], ref["g2"], t2, labels, "second-order gradient w.r.t. leaf")
             if bad:
-                return bad
+                return bad, False
+    return None, nonzero
+
+
+def run_case(case):
+    torch.manual_seed(case["seed"] & 0x7FFFFFFF)
+    spec = case["spec"]
+    pspec = case.get("pspec")
+    consts = make_consts(case)
+    labels = case_labels(case)
+    ref = evaluate(case, pure_spec(spec), pure_spec(pspec) if pspec else None, consts)
+    got = evaluate(case, spec, pspec, consts)
+    bad, nonzero = judge(case, got, ref, consts, labels)
+    if bad:
+        return bad
     return ok(labels, nontrivial=nonzero)
+
+
+# ------------------------------------------------------------------ two rounds on one object (task "rounds")
+#
+# Between two uses of a functional the owner of the object does what owners of such objects legitimately do: an optimiser
+# step on the leaves (in place, under no_grad), the derived tensors computed again from the leaves and stored again, a list /
+# dict / sub-module attribute bound to a NEW container holding the same or the re-derived tensors, entries replaced inside
+# the existing containers, a dict rebuilt in another key order, Parameters registered again in another order.  The function
+# the object represents in round 2 is the mathematical function of the values the leaves hold THEN; the anchor is a fresh
+# pure function of those values.  The structure (names, which names share a tensor) never changes.
+
+# Defect found by this task (D55, repaired in /repo; regress/C09/sibling_snapshot_after_reassignment.json): a sibling kept by the caller hands
+# the functionals the tensors its object held when make_sibling was called (PureFunction.objparams() returns a snapshot), so
+# after the owner re-assigns a tensor the functional evaluates - and differentiates - the old one.  While it is not repaired
+# the sibling kinds keep their tensor objects between the rounds (counted by the label sibling_tensors_kept).
+AVOID_SIBLING_SNAPSHOT = os.environ.get("C09_SIBLING_SNAPSHOT", "test") == "avoid"     # repaired in /repo (D55): the region is generated
+SIB_KINDS = ("sib1", "sib2")
+
+ROUND_KINDS = ["em", "em_cont", "em_cont", "em_cont", "em_nn", "em_nn", "nn", "nn_nested", "nn_nested", "sib1", "sib2", "nn_buf", "nn_tied",
+               "nn_tied_nested", "em_two"]
+EFF_HOLDERS = ("em", "em_cont", "sib1", "sib2", "em_two", "jit")       # kinds that are handed tensors derived OUTSIDE the function
+
+
+def _reregister(mod, reverse):
+    """the owner deletes and re-assigns the directly held Parameters of an nn.Module (same objects), optionally in reverse order"""
+    items = list(mod._parameters.items())
+    for name, _ in items:
+        delattr(mod, name)
+    for name, prm in (reversed(items) if reverse else items):
+        setattr(mod, name, prm)
+
+
+def _explicit_layout(spec):
+    neff = len(spec["derive"])
+    explicit = list(spec.get("explicit") or [spec["kind"] == "pure"] * neff)
+    if spec["kind"] == "pure":
+        explicit = [True] * neff
+    return [j for j in range(neff) if explicit[j]], [j for j in range(neff) if not explicit[j]]
+
+
+def update_object(spec, leaves, fcn, params, info, hist):
+    """apply the owner's between-rounds actions to one representation; returns the explicit parameters of the next call"""
+    kind = spec["kind"]
+    how, fresh = hist["how"], bool(hist["fresh"] or hist["step"])
+    derive = spec["derive"]
+    eff = gen.derive_all(derive, leaves) if fresh else None      # derived again from the (possibly updated) leaves: new tensor objects
+    params = list(params)
+    if kind in gen.KINDS:
+        exp_idx, obj_idx = _explicit_layout(spec)
+        if fresh:
+            for k, j in enumerate(exp_idx):
+                params[k] = eff[j]
+    elif kind == "jit" and fresh:
+        params[:3] = eff[:3]
+    obj = info["obj"]
+    if kind in ("em", "sib1", "em_two") or (kind == "sib2"):
+        # tensors held as direct attributes t<j> (sib2: the EditableModule member holds every other object-held tensor)
+        for name in [nm for nm in obj.getparamnames("evaluate" if kind != "sib2" else "part") if nm != "unused"]:
+            j = int(name[1:])
+            setattr(obj, name, eff[j] if fresh else getattr(obj, name))
+        if kind == "sib2":
+            _reregister(info["objs"][1], how == "reorder")
+    elif kind == "em_cont":
+        names = [nm for nm in obj.getparamnames("evaluate") if nm != "unused"]
+        held = {nm: (eff[j] if fresh else xitorch_get(obj, nm)) for nm, j in zip(names, obj_idx)}
+        lst_names = sorted([nm for nm in names if nm.startswith("lst[")], key=lambda nm: int(nm[4:-1]))
+        dct_names = [nm for nm in names if nm.startswith("dct[")]
+        if how == "inplace":
+            for nm in lst_names:
+                obj.lst[int(nm[4:-1])] = held[nm]
+            for nm in dct_names:
+                obj.dct[nm[5:-2]] = held[nm]
+        else:
+            obj.lst = [held[nm] for nm in lst_names]
+            obj.dct = {nm[5:-2]: held[nm] for nm in (reversed(dct_names) if how == "reorder" else dct_names)}
+    elif kind == "em_nn":
+        if how == "inplace":
+            _reregister(obj.mod, False)
+        else:
+            obj.mod = type(obj.mod)()               # a new sub-module holding the same leaf Parameters
+            if how == "reorder":
+                _reregister(obj.mod, True)
+        info["objs"] = [obj, obj.mod]
+    elif kind in ("nn", "nn_buf", "nn_tied"):
+        _reregister(obj, how == "reorder")
+    elif kind == "nn_nested":
+        if how == "inplace":
+            _reregister(obj.first, False)
+            _reregister(obj.second[0], False)
+        else:
+            old1, old2 = obj.first, obj.second[0]
+            idx = lambda m: [int(nm[1:]) for nm in m._parameters if nm.startswith("w")]
+            new1, new2 = type(old1)(idx(old1)), type(old2)(idx(old2))
+            if "unused" in old2._parameters:
+                new2.unused = old2.unused
+            if how == "reorder":
+                _reregister(new1, True)
+                _reregister(new2, True)
+            obj.first = new1
+            obj.second = torch.nn.ModuleList([new2])
+    elif kind == "nn_tied_nested":
+        subs = list(obj._modules.items())
+        for name, sub in (reversed(subs) if how == "reorder" else subs):
+            if how == "inplace":
+                _reregister(sub, False)
+            else:
+                delattr(obj, name)
+                obj.add_module(name, type(sub)(sub.w))
+    return tuple(params)
+
+
+def xitorch_get(obj, name):
+    from xitorch._utils.attr import get_attr
+    return get_attr(obj, name)
+
+
+def run_rounds(case):
+    torch.manual_seed(case["seed"] & 0x7FFFFFFF)
+    spec = case["spec"]
+    pspec = case.get("pspec")
+    hist = case["hist"]
+    labels = case_labels(case) + ["hist=%s/%s/%s" % (hist["how"], "fresh" if (hist["fresh"] or hist["step"]) else "same", "step" if hist["step"] else "nostep")]
+    sib = spec["kind"] in SIB_KINDS or (pspec is not None and pspec["kind"] in SIB_KINDS)
+    if sib:
+        labels.append("sibling_tensors_kept=%s" % (not (hist["fresh"] or hist["step"])))
+        if AVOID_SIBLING_SNAPSHOT and (hist["fresh"] or hist["step"]):
+            return discard("sibling_snapshot_defect", labels)
+    consts1 = make_consts(case)
+    consts2 = make_consts(case, 1) if hist["step"] else consts1
+    pure, ppure = pure_spec(spec), (pure_spec(pspec) if pspec else None)
+    ref1 = evaluate(case, pure, ppure, consts1)
+    b = build_all(case, spec, pspec, consts1)
+    got1 = run_round(case, b, consts1, retain=True)
+    bad, nonzero1 = judge(case, got1, ref1, consts1, labels)
+    if bad:
+        return bad
+    # ---- between the rounds
+    if hist["step"]:
+        with torch.no_grad():
+            for lf, v in zip(b.leaves, consts2["vals"]):
+                lf.copy_(v)
+            for lf, v in zip(b.pleaves, consts2["pvals"]):
+                lf.copy_(v)
+    if spec["kind"] == "em_two" and pspec is not None:
+        for nm, t in zip(["w%d" % j for j in range(len(pspec["derive"]))], gen.derive_all(pspec["derive"], b.pl)):
+            if hist["fresh"] or hist["step"]:
+                setattr(b.info["obj"], nm, t)
+    b.params = update_object(spec, b.leaves, b.fcn, b.params, b.info, hist)
+    if pspec is not None and spec["kind"] != "em_two":
+        b.pparams = update_object(pspec, b.pl, b.pfcn, b.pparams, b.pinfo, hist)
+    ref2 = evaluate(case, pure, ppure, consts2)
+    got2 = run_round(case, b, consts2)
+    bad, nonzero2 = judge(case, got2, ref2, consts2, labels, pre="round2:")
+    if bad:
+        return bad
+    return ok(labels, nontrivial=nonzero1 and nonzero2)
+
+
+@st.composite
+def rounds_st(draw, tier="quick"):
+    case = draw(case_st(tier, kinds=ROUND_KINDS))
+    step = draw(st.booleans())
+    sib = case["spec"]["kind"] in SIB_KINDS or ("pspec" in case and case["pspec"]["kind"] in SIB_KINDS)
+    if sib and AVOID_SIBLING_SNAPSHOT:
+        case["hist"] = {"step": False, "fresh": False, "how": draw(st.sampled_from(["rebind", "inplace", "reorder"]))}
+        return case
+    case["hist"] = {"step": step, "fresh": step or draw(st.booleans()), "how": draw(st.sampled_from(["rebind", "rebind", "inplace", "reorder"]))}
+    return case
 
 
 # ------------------------------------------------------------------ strategies
@@ -777,6 +1006,7 @@ def tasks(tier):
         Task("tied", strategy=case_st(tier, kinds=tied), run=run_case, examples={"quick": 240, "thorough": 3500}),
         Task("twomethods", strategy=case_st(tier, kinds=["em_two"], funcs=["mcquad"]), run=run_case,
              examples={"quick": 120, "thorough": 2000}),
+        Task("rounds", strategy=rounds_st(tier), run=run_rounds, examples={"quick": 320, "thorough": 6000}),
         Task("kinds", strategy=case_st(tier), run=run_case, examples={"quick": 2400, "thorough": 50000}),
     ]
 
